@@ -8,6 +8,12 @@ Lemma inv_Rearm_ET s : Inv ET s -> Inv ET (step ET s Rearm).
 Proof. start. go. Qed.
 Lemma inv_Rearm_ETOS s : Inv ETOS s -> Inv ETOS (step ETOS s Rearm).
 Proof. start. go. all: fin2. Qed.
+Lemma inv_ReadDispatch_LT co s : Inv LT s -> Inv LT (step LT s (ReadDispatch co)).
+Proof. start. go. Qed.
+Lemma inv_ReadDispatch_ET co s : Inv ET s -> Inv ET (step ET s (ReadDispatch co)).
+Proof. start. go. Qed.
+Lemma inv_ReadDispatch_ETOS co s : Inv ETOS s -> Inv ETOS (step ETOS s (ReadDispatch co)).
+Proof. start. go. Qed.
 Lemma inv_ConnDone_LT s : Inv LT s -> Inv LT (step LT s ConnDone).
 Proof. start. go. Qed.
 Lemma inv_ConnDone_ET s : Inv ET s -> Inv ET (step ET s ConnDone).
